@@ -12,6 +12,7 @@ in Coq on generated small databases and compared by Model/SqlJudge.verdict (bag 
 by the ORDER BY keys, LIMIT / OFFSET as 'any valid prefix'); the reference evaluator itself is
 cross-checked against sqlite3 on every case and a case is judged only where the two agree."""
 import copy
+import itertools
 import json
 import random
 import re
@@ -43,16 +44,27 @@ def atom(rng, aliases):
     if k < 0.62 and len(aliases) > 1:
         b = rng.choice([x for x in aliases if x != al] or aliases)
         return f'{al}.{c} {rng.choice(["=", "<", ">"])} {b}.{rng.choice(COLS)}'
-    if k < 0.70:
+    if k < 0.66:
         return f'{al}.{c} in ({rng.randint(0, 1)}, {rng.randint(2, 3)})'
+    if k < 0.70:
+        # lists that mix literals with columns (in either order)
+        b = rng.choice(aliases)
+        items = [str(rng.randint(0, 3)), f'{b}.{rng.choice(COLS)}'] + ([str(rng.randint(0, 3))] if rng.random() < 0.5 else [])
+        if rng.random() < 0.3:
+            rng.shuffle(items)
+        return f'{al}.{c} {rng.choice(["in", "in", "not in"])} ({", ".join(items)})'
     if k < 0.78:
         return f'{al}.{c} is null'
     if k < 0.84:
         return f'{al}.{c} is not null'
     if k < 0.90:
         return f'coalesce({al}.{c}, {v}) = {rng.randint(0, 3)}'
-    if k < 0.95:
+    if k < 0.93:
         return f'{al}.{c} + 1 > {v}'
+    if k < 0.97:
+        # comparisons with the NULL literal are never true (not the same as IS [NOT] NULL)
+        return rng.choice([f'{al}.{c} = null', f'{al}.{c} != null', f'{al}.{c} <> null', f'null = {al}.{c}', f'not ({al}.{c} = null)',
+                           f'({al}.{c} = null) is null', f'{al}.{c} < null'])
     return f'{al}.{c} not in (1, 2)'
 
 
@@ -87,7 +99,10 @@ def gen_select(rng, features, single=None):
     jts = ['join', 'join', 'left join', 'inner join', 'right join', 'full join', 'left outer join']
     for i in range(1, len(tabs)):
         j = rng.choice(jts if 'outer' in features else jts[:4])
-        on = f'{rng.choice(aliases[:i])}.{rng.choice(["a", "a", "b"])} = {aliases[i]}.a'
+        # key columns vary on both sides and between joins (the same column name in two tables is not the same column)
+        on = f'{rng.choice(aliases[:i])}.{rng.choice(["a", "a", "b", "c"])} = {aliases[i]}.{rng.choice(["a", "a", "b", "c"])}'
+        if rng.random() < 0.15:
+            on = ' = '.join(reversed(on.split(' = ')))
         if rng.random() < 0.35:
             on += f' and {atom(rng, [aliases[i]] if rng.random() < 0.7 else aliases[:i + 1])}'
         if rng.random() < 0.08:
@@ -222,6 +237,13 @@ def systematic_edges():
             for t in ('t1', 't2', 't3'):
                 for pr in preds[:3]:
                     out.append(f'select * from int1.t1 {j1} int2.t2 on t1.a = t2.a {j2} int3.t3 on t2.a = t3.a where ' + pr.format(t=t))
+    # chains of three tables over every choice of key columns: the restriction sent with a later fetch has to come from the
+    # column of the table named in ITS join condition
+    for c1, c2, c3, c4 in itertools.product(COLS, repeat=4):
+        out.append(f'select * from int1.t1 join int2.t2 on t1.{c1} = t2.{c2} join int3.t3 on t2.{c3} = t3.{c4}')
+        if c1 == c3:
+            out.append(f'select * from int1.t1 join int2.t2 on t2.{c2} = t1.{c1} left join int3.t3 on t3.{c4} = t2.{c3}')
+            out.append(f'select * from int1.t1 join int2.t2 on t1.{c1} = t2.{c2} join int3.t3 on t1.{c3} = t3.{c4}')
     return out
 
 
